@@ -135,16 +135,23 @@ func genKOp(r *rand.Rand) *KOp {
 		}
 		return pick(r, jsonBodies)
 	}
+	// a nil value now and then: the call is made with nil, the model says what that stands for
+	orNil := func(v *string) *string {
+		if r.Intn(14) == 0 {
+			return nil
+		}
+		return v
+	}
 	gens := []gen{
 		{2, func() *KOp { return &KOp{Kind: pick(r, []string{"GetRaw", "Get", "Exists", "GetExpiry"})} }},
 		{2, func() *KOp { return &KOp{Kind: pick(r, []string{"GetWithXattrs", "GetXattrs"}), Names: genNames(r)} }},
 		{1, func() *KOp { return &KOp{Kind: "GetSubDocRaw", Path: pick(r, subdocPaths)} }},
-		{6, func() *KOp { return &KOp{Kind: "Add", Exp: genExp(r), Val: sp(pick(r, jsonBodies))} }},
-		{3, func() *KOp { return &KOp{Kind: "AddRaw", Exp: genExp(r), Val: sp(body())} }},
+		{6, func() *KOp { return &KOp{Kind: "Add", Exp: genExp(r), Val: orNil(sp(pick(r, jsonBodies)))} }},
+		{3, func() *KOp { return &KOp{Kind: "AddRaw", Exp: genExp(r), Val: orNil(sp(body()))} }},
 		{5, func() *KOp {
-			return &KOp{Kind: "Set", Exp: genExp(r), Preserve: r.Intn(4) == 0, Val: sp(pick(r, jsonBodies))}
+			return &KOp{Kind: "Set", Exp: genExp(r), Preserve: r.Intn(4) == 0, Val: orNil(sp(pick(r, jsonBodies)))}
 		}},
-		{3, func() *KOp { return &KOp{Kind: "SetRaw", Exp: genExp(r), Preserve: r.Intn(4) == 0, Val: sp(body())} }},
+		{3, func() *KOp { return &KOp{Kind: "SetRaw", Exp: genExp(r), Preserve: r.Intn(4) == 0, Val: orNil(sp(body()))} }},
 		{8, func() *KOp {
 			o := &KOp{Kind: "WriteCas", Exp: genExp(r), CasMode: genCasMode(r), Val: sp(body())}
 			switch r.Intn(8) {
@@ -156,9 +163,7 @@ func genKOp(r *rand.Rand) *KOp {
 			case 2, 3:
 				o.AddOnly = true
 			case 4:
-				if !o.Append {
-					o.Val = nil
-				}
+				o.Val = nil
 			}
 			return o
 		}},
@@ -337,7 +342,7 @@ func genKv(r *rand.Rand, tier string) kvInput {
 		case x == 3 || x == 8:
 			in.Ops = append(in.Ops, Step{Kind: "expire", Clock: next()})
 		case x >= 11 && x <= 14:
-			st := Step{Kind: "query", Coll: pick(r, live), Handle: r.Intn(in.Handles), Q: pick(r, []string{"QIds", "QBodies", "QCount", "QIdEq", "QBodyA1", "QXattrRev", "QSync", "QLast2"}), Clock: next()}
+			st := Step{Kind: "query", Coll: pick(r, live), Handle: r.Intn(in.Handles), Q: pick(r, []string{"QIds", "QBodies", "QCount", "QIdEq", "QBodyA1", "QXattrRev", "QSync", "QLast2", "QSyncFirst"}), Clock: next()}
 			if st.Coll == "s1.c2" {
 				st.Handle = 0
 			}
@@ -641,7 +646,7 @@ func genMotif(r *rand.Rand, m int, in *kvInput, exists map[string]bool, hot []st
 		}
 		in.Ops = append(in.Ops, Step{Kind: "purge", Handle: h, Clock: next()})
 		view(h, "v0", &ViewParams{Stale: r.Intn(3) == 0})
-		in.Ops = append(in.Ops, Step{Kind: "query", Coll: cn, Handle: h, Q: pick(r, []string{"QIds", "QCount", "QSync"}), Clock: next()})
+		in.Ops = append(in.Ops, Step{Kind: "query", Coll: cn, Handle: h, Q: pick(r, []string{"QIds", "QCount", "QSync", "QSyncFirst"}), Clock: next()})
 		kv(inserter())
 		view(h, "v1", &ViewParams{})
 		in.Ops = append(in.Ops, Step{Kind: "dump", Coll: cn, Key: key, Start: "zero", Clock: next()})
